@@ -74,6 +74,19 @@ CHECKS = {
          "Images 1x1..4x1 with all-distinct texels x Pad/Repeat x Nearest/Bilinear x alpha {1, 0.5, 0} x 9 CTMs x 46-102 source transforms (all integer translations in [-4,4]^2, quarter-pixel translations, scales, rotations) on 6x5 and 9x7, plus draw_image_at / draw_image_with_size_at at 81 positions x 5 sizes: exact texel for Nearest and integer translations, the 4-bit-weighted formula for Bilinear, edge clamp / modular wrap beyond the image, alpha scaling.",
          "Admits the neighbouring texel / weight step within the 16.16 coordinate slack; only pixels with full reference coverage are asserted.",
          "DESIGN.md section 4, C13"),
+
+ "C04": ("bounded exhaustive enumeration of polylines x stroke styles x transforms; pixels compared with an analytic stroke region (union of convex pieces) plus a bit-exact differential against the filled stroke_to_path outline",
+         "All 2-4 vertex polylines over a 4x4 user grid (every turning angle incl. exact reversals) x open with each cap / closed x widths x Round / Bevel / Miter with limits 0..10 x 7 transforms, two-subpath paths, flattened quads and cubics, degenerate widths: every pixel entirely inside the analytic region by more than the property's margin is fully painted, every pixel entirely outside by more than it untouched; straight strokes equal the NonZero fill of the transformed outline bit for bit; non-positive or NaN widths paint nothing.",
+         "Round pieces are bracketed by inscribed / circumscribed polygons (error added to the margin); joins within 1e-4 of the miter limit are not asserted; curves are taken through Path::flatten (validated by C16).",
+         "DESIGN.md section 4, C04"),
+ "C08": ("bounded exhaustive enumeration of curved paths over off-grid control point sets x winding rules x transforms; pixels compared with an f64 fine flattening (winding number and distance to the outline)",
+         "All single quads over a 6x6 control set (36^3), single cubics (4x4: 65k; thorough 36^4 = 1.68M), compound paths (quad+quad, cubic+line+quad+Close+quad, curve-first, curve after Close), arcs (3 radii x 8 starts x 10 sweeps), large curves on 36x36, both rules, 7 transforms, fill and clip: every pixel farther than 1 + sqrt(1/2) px from the f64 outline is fully painted iff the winding rule holds at its centre.",
+         "96-192 segment f64 flattening; arcs are modelled as true circular arcs with 0.5% r added to the margin.",
+         "DESIGN.md section 4, C08"),
+ "C09": ("bounded exhaustive enumeration of polylines x dash arrays x offsets x styles; the dasher's output (hook) compared with an independent arc-length dasher and the pixels with the stroke region of its pieces",
+         "Open and closed polylines and two-subpath paths x all dash arrays of length 1-3 over {2,5,11,40,200} and length 4/6 over {3,7} x offsets of both signs up to +-10000.5 x caps/joins/widths: the pieces emitted by dash_path equal the on-intervals of M-DASH vertex for vertex (joined across a closed subpath's seam, complete closed outline when fully on), pixels match M-REGION of those pieces at 0.75 px, non-positive totals paint nothing.",
+         "Cases with a dash boundary within 2e-3 of a vertex are not asserted (piece structure ambiguous there); the overlapping-pieces rasteriser finding is listed.",
+         "DESIGN.md section 4, C09"),
 }
 NOT_YET = "check not built yet in this round (design in DESIGN.md section 4); will be claimed once its explorer exists"
 
